@@ -99,6 +99,12 @@ class Sim:
             def save_transaction_for_debugging(self, t):
                 pass
         self.net = simnet.Net(rng)
+        # "every clock progression": the clock the managers are stepped with starts at the epoch-like default, or at / just
+        # after zero (an attempt stamped 0 is an attempt, not "never tried")
+        self.clock_start = random.Random(idx).choice([None, None, 0, 0, 1, 59])
+        if self.clock_start is not None:
+            self.net.clock.t = self.clock_start
+            a.inc("runs_with_clock_starting_near_zero")
         self.own = ("10.0.0.1", 2412)
         self.node = self.net.add_node("N", self.own, CoinState.zero(), Disk())
         self.lp = self.node.lp
